@@ -282,7 +282,7 @@ pub fn run(args: &Args) {
             if acl_mode == 0 { "[]".to_string() } else { cq::list(&[cq::id20(&pool[0]), cq::id20(&pool[3])]) }
         );
         let (_child, port) = start_child(sw, ww, ka, max_scrape, max_peers, acl);
-        let _ = std::fs::remove_file(&acl_path);
+        let child_pid = _child.0.id() as i32;
         let mut conns: Vec<Conn> = vec![
             Conn { stream: None, v6: false },
             Conn { stream: None, v6: false },
@@ -354,6 +354,24 @@ pub fn run(args: &Args) {
             let v6 = conns[ci].v6;
             if conns[ci].stream.is_none() {
                 conns[ci].stream = Some(connect(v6, port));
+            }
+            if acl_mode != 0 && rng.chance(1, 7) {
+                // rewrite the access list and ask the tracker to reload it (SIGUSR1); sometimes the new
+                // file is unreadable: the previous list must stay in force
+                let ok = rng.chance(3, 4);
+                let listed: Vec<[u8; 20]> = pool.iter().copied().filter(|_| rng.chance(1, 2)).collect();
+                let mut text: String = listed.iter().map(|h| format!("{}\n", h.iter().map(|b| format!("{:02x}", b)).collect::<String>())).collect();
+                if !ok {
+                    text.push_str("this is not an info hash\n");
+                }
+                std::fs::write(&acl_path, text).unwrap();
+                unsafe {
+                    libc::kill(child_pid, libc::SIGUSR1);
+                }
+                std::thread::sleep(Duration::from_millis(250));
+                items.push(format!("YReload {} {}", cq::list(&listed.iter().map(cq::id20).collect::<Vec<_>>()), cq::b(ok)));
+                *kinds.entry("reload").or_insert(0) += 1;
+                continue;
             }
             let kind = rng.below(12);
             let mut one = |rng: &mut Prng, conns: &mut Vec<Conn>, ci: usize, text: Vec<u8>, op: Option<String>, name: &'static str| -> String {
@@ -497,6 +515,7 @@ pub fn run(args: &Args) {
                 ));
             }
         }
+        let _ = std::fs::remove_file(&acl_path);
     });
     let mut ks: Vec<_> = kinds.into_iter().collect();
     ks.sort();
